@@ -348,7 +348,12 @@ def check_D1(ctx, facts, rule='C05.D1'):
 
 def check(ctx):
     facts = ctx.facts('prod')
-    check_D0(ctx, facts)
+    # SEM: diff's per-key transfer function over the finite domain of order types (P-ORDER): a peer entry is listed exactly
+    # when this replica lacks it, live keys first list, tombstones second.  Subsumes D0, which is only evaluated when the
+    # code uses a construct the abstract interpreter does not model.
+    import orswot_abs
+    if not orswot_abs.check_diff(ctx, facts, 'C05.SEM'):
+        check_D0(ctx, facts)
     check_D1(ctx, facts)
     # A: the keyspace actor applies what it is handed (keyspace/actor.rs is one of C05's anchors): the C02 handler
     #    obligations (write-then-fold, record = what storage gets, every region folds) re-evaluated under C05.A
